@@ -93,3 +93,65 @@ Theorem C08_nonvalidating_refuted :
     length (snd (encode_ranges_fsm HO data ob q)) <> length (flat HO (honest HO data bs q)).
 Proof. exact c08_nonvalidating_refuted. Qed.
 Print Assumptions C08_nonvalidating_refuted.
+
+(* ======== Final composition (proofs in Proofs/FinalAgree.v): sync and fsm agree ======== *)
+From BaoV Require Import Model.Sync Proofs.DecForest Proofs.E2EDecode Proofs.FinalAgree.
+From Coq Require Import Arith.
+
+(* creation: the sync and fsm creation loops are the same function, for every kind, tree, store and data
+   (no size bound is needed; that both equal the specified outboard is C03_created_entry_points) *)
+Theorem C08_outboard_agree : forall (HO : hops) (data : bytes HO),
+  (forall (k : ob_kind) (size bs : N), create_sized HO k data size bs = create_sized_fsm HO k data size bs) /\
+  (forall ob : outboard HO, init_from HO ob data = init_from_fsm HO ob data) /\
+  (forall (t : tree) (ob : outboard HO), outboard_impl HO t data ob = outboard_impl_fsm HO t data ob) /\
+  (forall t : tree, outboard_post_order HO t data = outboard_post_order_fsm HO t data).
+Proof. exact c08_outboard_agree. Qed.
+Print Assumptions C08_outboard_agree.
+
+(* decoding: on EVERY stream the two decoders (set up for the blob's root and tree and a well-formed query,
+   the empty one included) yield the same items and end with the same outcome (Finished, or Failed with the
+   same error) *)
+Theorem C08_decode_agree : forall (HO : hops), hash_ok HO ->
+  forall (data : bytes HO) (bs : N) (q : ranges),
+  blen HO data <= 2 ^ 63 -> bs <= 10 -> wf_ranges q = true ->
+  forall (stream : bytes HO) ys1 o1 st1 ys2 o2 st2,
+  dec_run HO (dec_new HO (root_hash HO data) (mkTree (blen HO data) bs) stream q) = (ys1, o1, st1) ->
+  rd_run HO (rd_new HO (root_hash HO data) q (mkTree (blen HO data) bs) stream) = (ys2, o2, st2) ->
+  ys1 = ys2 /\ o1 = o2.
+Proof. exact c08_decode_agree. Qed.
+Print Assumptions C08_decode_agree.
+
+(* the case analysis behind it, for a non-empty query: either the stream starts with the whole honest
+   encoding (both decoders yield all honest items, finish and leave the rest), or it agrees with the honest
+   encoding on exactly d bytes (lcp_len, Proofs/DecForest.v), byte d lies in item k, and both decoders yield
+   the first k items and fail naming item k (item_err, Props/C09.v: NotFound iff the stream ends before item k does) *)
+Theorem C08_decode_cases : forall (HO : hops), hash_ok HO ->
+  forall (data : bytes HO) (bs : N) (q : ranges),
+  blen HO data <= 2 ^ 63 -> bs <= 10 -> wf_ranges q = true -> q <> [] ->
+  forall stream : bytes HO,
+  (exists rest, stream = flat HO (honest HO data bs q) ++ rest /\
+     (exists st, dec_run HO (dec_new HO (root_hash HO data) (mkTree (blen HO data) bs) stream q)
+                 = (honest HO data bs q, Finished, st) /\ d_enc HO st = rest) /\
+     (exists st, rd_run HO (rd_new HO (root_hash HO data) q (mkTree (blen HO data) bs) stream)
+                 = (honest HO data bs q, Finished, st) /\ Fsm.r_enc HO st = rest)) \/
+  (exists (d k : nat) (it : item HO),
+     (d < length (flat HO (honest HO data bs q)))%nat /\ lcp_len HO stream (flat HO (honest HO data bs q)) d /\
+     (length (flat HO (firstn k (honest HO data bs q))) <= d)%nat /\
+     (d < length (flat HO (firstn (S k) (honest HO data bs q))))%nat /\
+     nth_error (honest HO data bs q) k = Some it /\
+     (forall ys o st,
+        dec_run HO (dec_new HO (root_hash HO data) (mkTree (blen HO data) bs) stream q) = (ys, o, st) ->
+        ys = firstn k (honest HO data bs q) /\
+        o = Failed (item_err HO (length stream <? length (flat HO (firstn (S k) (honest HO data bs q))))%nat it)) /\
+     (forall ys o st,
+        rd_run HO (rd_new HO (root_hash HO data) q (mkTree (blen HO data) bs) stream) = (ys, o, st) ->
+        ys = firstn k (honest HO data bs q) /\
+        o = Failed (item_err HO (length stream <? length (flat HO (firstn (S k) (honest HO data bs q))))%nat it))).
+Proof. exact c08_decode_cases. Qed.
+Print Assumptions C08_decode_cases.
+
+(* every stream has a longest common prefix with any byte list (decidable byte equality) *)
+Theorem C08_lcp_exists : forall (HO : hops), beq_correct HO -> forall h s : bytes HO,
+  (exists r, s = h ++ r) \/ (exists d, (d < length h)%nat /\ lcp_len HO s h d).
+Proof. exact lcp_exists. Qed.
+Print Assumptions C08_lcp_exists.
